@@ -85,6 +85,10 @@ class Check:
     def fixed_cases(self, tier):
         return []
 
+    def fixed_cases_for_shard(self, tier, shard, nshards):
+        """Deterministic cases run before the generated ones; by default all on shard 0."""
+        return self.fixed_cases(tier) if shard == 0 else []
+
     def run_case(self, case):
         raise NotImplementedError
 
@@ -198,12 +202,12 @@ def _hypothesis_run(check, tier, shard_seed, n_examples, body, shrink=False, max
 
 
 def _run_shard(args):
-    check, tier, seed, shard, n_examples = args
+    check, tier, seed, shard, n_examples, n_shards = args
     stats = Stats()
     shard_seed = _mix(seed, shard)
     err = None
     try:
-        for case in check.fixed_cases(tier) if shard == 0 else []:
+        for case in check.fixed_cases_for_shard(tier, shard, n_shards):
             execute(check, case, stats, shard_seed=None, keep_sample=len(stats.samples) < 1)
         if n_examples > 0:
             _hypothesis_run(check, tier, shard_seed, n_examples, lambda case: execute(check, case, stats, shard_seed))
@@ -357,7 +361,7 @@ def run(check, tier, seed, examples=None, shards=None, verbose=True):
     total = Stats()
     errors = []
     extras = {}
-    jobs = [(check, tier, seed, s, n_examples) for s in range(n_shards)]
+    jobs = [(check, tier, seed, s, n_examples, n_shards) for s in range(n_shards)]
     if n_shards == 1:
         results = [_run_shard(jobs[0])]
     else:
